@@ -131,6 +131,12 @@ func cmdCheck(args []string) int {
 		quickMs, fbMs = 30000, 120000
 		coverMs = 20000
 	}
+	// an obligation recorded as a known finding is expected to stay unproved: no second chance for it
+	for _, kf := range readKnownFindings(filepath.Join(verifDir, "known_findings.txt")) {
+		if kf.Prop == *prop {
+			noSecondChance[kf.Obligation] = true
+		}
+	}
 	runs := runUnits(w, units, runDir, quickMs, fbMs)
 	if *tier == "thorough" {
 		// thorough: additionally re-prove every obligation stand-alone on all three solvers and record agreement
